@@ -371,6 +371,13 @@ func (d *DotGit) NewObjectPack() (*PackWriter, error) {
 	if cleanErr != nil {
 		return nil, cleanErr
 	}
+	// The pack list may be regenerated (ExclusiveAccess) while this writer
+	// is still open; it must be dropped again once the pack is in place,
+	// or the new pack stays invisible.
+	pw.saved = func() {
+		d.packMap = nil
+		d.packList = nil
+	}
 	return pw, nil
 }
 
@@ -805,7 +812,14 @@ func (d *DotGit) DeleteOldObjectPackAndIndex(hash plumbing.Hash, t time.Time) er
 func (d *DotGit) NewObject() (*ObjectWriter, error) {
 	d.cleanObjectList()
 
-	return newObjectWriter(d.fs, d.options.ObjectFormat)
+	w, err := newObjectWriter(d.fs, d.options.ObjectFormat)
+	if err != nil {
+		return nil, err
+	}
+	// The object list may be regenerated (ExclusiveAccess) while this
+	// writer is still open; drop it again once the object is in place.
+	w.saved = d.cleanObjectList
+	return w, nil
 }
 
 // ObjectsWithPrefix returns the hashes of objects that have the given prefix.
